@@ -264,6 +264,10 @@ def main(run, tier):
     progs += [p.replace(' ', s) for p in gen.EXTRA_PROGRAMS for s in seps]
     progs += [lead + p for p in gen.EXTRA_PROGRAMS[:6] + ['a', 'var x = 1;\nx++;'] for lead in ('\ufeff', '\ufeff\ufeff', '\u1680', '\ufeff\n')]
     progs += ['var\u1680x', 'a\u1680b', 'a\u2000b\u3000c', 'x\u180ey', 'a\ufeffb;']
+    # characters Python's str.splitlines treats as line breaks but ES5 does not (VT, FF, FS, GS, RS, NEL) inside multi-character tokens
+    for ch in ('\x0b', '\x0c', '\x1c', '\x1d', '\x1e', '\x85'):
+        progs += ['var s = "a%sb", t = 2;\nshow(s, t);' % ch, '/* a%sb */ x = 1;\ny = 2;' % ch, 'x = 1; // c%sd\ny = /r%s/;\nz;' % (ch, ch)]
+    progs += ['v\\u0061r x = 1;', '\\u0069f (a) b;', 'a.\\u0069n', 'x\\u0061 = 1;', 'tru\\u0065', 'n\\u0075ll;']
     rnd = random.Random(run.seed)
     soup = ['a', 'if', 'in', 'instanceof', 'x1', '1', '.5', '"s\\\n t"', "'q'", '/r/g', '+', '++', '+=', '>>>=', '>>', '===', '!',
             '(', ')', '{', '}', '[', ']', ';', ',', '.', '\n', '\r\n', ' ', ' ', '\t', '/*c\n*/', '//l\n', 'é', 'do', 'get', 'set',
